@@ -617,27 +617,19 @@ func c07r4(c *core.Ctx) {
 		// (c) the token field is initialised from an acquire call in every composite literal of the type
 		lits, good := 0, 0
 		for _, g := range m.AllFuncs() {
-			core.InspectNoLits(g.Body, func(n ast.Node) bool {
-				cl2, ok := n.(*ast.CompositeLit)
-				if !ok || core.NamedName(m.Info.TypeOf(cl2)) != f.Recv {
-					return true
+			for _, cn := range constructionsOf(m, g) {
+				if cn.typ != f.Recv {
+					continue
 				}
 				lits++
-				for _, e := range cl2.Elts {
-					kv, ok := e.(*ast.KeyValueExpr)
-					if !ok {
-						continue
-					}
-					if litFieldKey(m, kv) == cl.tokenKey {
-						if call, ok := ast.Unparen(kv.Value).(*ast.CallExpr); ok {
-							if k, cal, _ := m.Callee(call); k == core.CallStatic && a.Acquire[cal] {
-								good++
-							}
+				if v, ok := cn.fields[cl.tokenKey]; ok {
+					if call, ok := ast.Unparen(v).(*ast.CallExpr); ok {
+						if k, cal, _ := m.Callee(call); k == core.CallStatic && a.Acquire[cal] {
+							good++
 						}
 					}
 				}
-				return true
-			})
+			}
 		}
 		if lits > 0 && lits == good {
 			c.OK("C07/R4c", f.Recv, c.At(f.Pos()), fmt.Sprintf("token field %s is initialised from an acquire call in all %d constructions", cl.tokenKey, lits))
